@@ -323,7 +323,10 @@ def rpe_cli(run, case, rng, work):
         fp = C01.real_file_pair(rng, work)
         fmt = fp["fmt"]
     else:
-        fp = C01.make_file_pair(rng, fmt, work, pos_cls="stationary_mix" if still else None)
+        fp = C01.make_file_pair(rng, fmt, work, pos_cls="stationary_mix" if still else None,
+                                still_start=bool(case.get("still_start")),
+                                stamp_cls="small" if "tmax_boundary" in case.get("force_options", ()) else None,
+                                small_est=bool(case.get("small_est")))
     argv_o, o = C01.draw_common_options(rng, fp, force=case.get("force_options", ()))
     du = "fmrd"[rng.integers(4)] if rng.random() < .6 else "f"
     all_pairs = bool(rng.random() < .3)
@@ -337,7 +340,7 @@ def rpe_cli(run, case, rng, work):
         delta = float(rng.integers(1, 6))
     elif du == "m":
         delta = float(fp["ext"] * 10.0**rng.uniform(-1.5, 0))
-        if o["correct_scale"] and rng.random() < .6:
+        if o["correct_scale"] and (rng.random() < .6 or case.get("small_est")):
             # an estimate at a smaller metric scale (monocular): a delta longer than its raw path
             # but well inside the scale-corrected one
             try:
@@ -371,6 +374,8 @@ def rpe_cli(run, case, rng, work):
     unit = None
     if rng.random() < .25:
         unit = ["mm", "cm", "m", "km", "deg", "rad"][rng.integers(6)]
+        if C01.UNIT_OF.get(relation) in ("deg", "rad") and rng.random() < .5:
+            unit = C01.UNIT_OF.get(relation)  # a conversion to the unit the values already have
         argv += ["--change_unit", unit]
     argv += ["--save_results", "out.zip", "--no_warnings"]
     argv = C01.group_short_flags(rng, argv, o, force=case.get("group"))
